@@ -100,7 +100,52 @@ pub struct Encoded {
 const CANARY: u8 = 0xa5;
 
 fn encode_value<T: EncoderValue>(v: &T) -> Encoded {
-    let announced = v.encoding_size();
+    encode_value_announced(v, v.encoding_size())
+}
+
+/// `encoding_size()` of the concrete frame struct inside the `Frame` enum: that is what the
+/// transmission code asks before it writes a frame (the enum itself falls back to the
+/// estimator-based default and would hide a wrong hand-written size).
+fn inner_size<A: frame::ack::AckRanges, D: EncoderValue>(f: &frame::Frame<'_, A, D>) -> usize {
+    use frame::Frame as F;
+    match f {
+        F::Padding(x) => x.encoding_size(),
+        F::Ping(x) => x.encoding_size(),
+        F::Ack(x) => x.encoding_size(),
+        F::ResetStream(x) => x.encoding_size(),
+        F::StopSending(x) => x.encoding_size(),
+        F::Crypto(x) => x.encoding_size(),
+        F::NewToken(x) => x.encoding_size(),
+        F::Stream(x) => x.encoding_size(),
+        F::MaxData(x) => x.encoding_size(),
+        F::MaxStreamData(x) => x.encoding_size(),
+        F::MaxStreams(x) => x.encoding_size(),
+        F::DataBlocked(x) => x.encoding_size(),
+        F::StreamDataBlocked(x) => x.encoding_size(),
+        F::StreamsBlocked(x) => x.encoding_size(),
+        F::NewConnectionId(x) => x.encoding_size(),
+        F::RetireConnectionId(x) => x.encoding_size(),
+        F::PathChallenge(x) => x.encoding_size(),
+        F::PathResponse(x) => x.encoding_size(),
+        F::ConnectionClose(x) => x.encoding_size(),
+        F::HandshakeDone(x) => x.encoding_size(),
+        F::Datagram(x) => x.encoding_size(),
+        F::DcStatelessResetTokens(x) => x.encoding_size(),
+        F::MtuProbingComplete(x) => x.encoding_size(),
+    }
+}
+
+fn encode_frame<A: frame::ack::AckRanges, D: EncoderValue>(f: &frame::Frame<'_, A, D>) -> Encoded {
+    let inner = inner_size(f);
+    let outer = f.encoding_size();
+    let mut e = encode_value_announced(f, inner);
+    if e.announced == e.bytes.len() && outer != e.bytes.len() {
+        e.announced = outer;
+    }
+    e
+}
+
+fn encode_value_announced<T: EncoderValue>(v: &T, announced: usize) -> Encoded {
     // 16 bytes of slack: an encoder that writes more than it announced must not run off
     // the buffer (EncoderBuffer only debug-asserts its capacity)
     let mut buf = vec![CANARY; announced + 64];
@@ -286,7 +331,7 @@ pub fn decode_frames(input: &[u8], reencode: bool) -> Result<DecodedFrames, Pani
                 Ok((f, remaining)) => {
                     let end = total - remaining.len();
                     let (announced, reencoded, exact_fit_ok) = if reencode {
-                        let e = encode_value(&f);
+                        let e = encode_frame(&f);
                         (e.announced, e.bytes, e.exact_fit_ok)
                     } else {
                         (0, Vec::new(), true)
@@ -463,7 +508,7 @@ pub fn encode_frame_value(f: &Frame) -> Result<Option<Encoded>, Panicked> {
                 F::MtuProbingComplete(frame::MtuProbingComplete::new(*mtu))
             }
         };
-        Some(encode_value(&v))
+        Some(encode_frame(&v))
     })
 }
 
